@@ -185,11 +185,16 @@ def execute(FallbackClient, n, hits, op, variant, reuse=(None, None), typed=None
             if c.answers and c.answers[-1] is res and log and any(
                     e["e"] == "consult" and e["i"] == i + 1 and e["hit"] for e in log):
                 src = i + 1
-    log.append({"e": "ret", "src": src})
+    empty = not raised and (res is None or (isinstance(res, (list, dict, tuple)) and len(res) == 0))
+    if isinstance(res, list):
+        res.append("caller-wrote-this")          # read-through callers fill what they got: it must not come back later
+    elif isinstance(res, dict):
+        res["caller-wrote-this"] = 1
+    log.append({"e": "ret", "src": src, "empty": empty})
     return {"h": {"n": n}, "ev": log, "variant": variant, "op": op, "hits": hits, "fc": fc, "caches": caches}
 
 
-FIELDS = {"begin": ("e", "op", "kind"), "consult": ("e", "i", "m", "a", "hit"), "ret": ("e", "src")}
+FIELDS = {"begin": ("e", "op", "kind"), "consult": ("e", "i", "m", "a", "hit"), "ret": ("e", "src", "empty")}
 
 
 def main(tier, rep):
